@@ -631,8 +631,8 @@ pub fn exec(dev: &mut Device, x: &RespondSpec, log: &mut Log) -> Option<Finding>
 pub fn plan(tier: &str) -> u64 {
     match tier {
         "thorough" => 20_000,
-        "selfcheck" => 64,
-        _ => 320,
+        "selfcheck" => 20_000,
+        _ => 1_000,
     }
 }
 
